@@ -726,7 +726,7 @@ fn hint_normal_stem_cjk(
         }
     };
     let threshold = 64 - threshold_delta;
-    let original_len = edge2.opos - edge.opos;
+    let original_len = edge2.opos.wrapping_sub(edge.opos);
     let cur_len = stem_width(
         metrics,
         group,
@@ -736,25 +736,26 @@ fn hint_normal_stem_cjk(
         edge.flags,
         edge2.flags,
     );
-    let original_center = (edge.opos + edge2.opos) / 2 + anchor;
-    let cur_pos1 = original_center - cur_len / 2;
-    let cur_pos2 = cur_pos1 + cur_len;
+    // Positions derived from hostile outlines can be anywhere in the i32 range: wrap
+    let original_center = (edge.opos.wrapping_add(edge2.opos) / 2).wrapping_add(anchor);
+    let cur_pos1 = original_center.wrapping_sub(cur_len / 2);
+    let cur_pos2 = cur_pos1.wrapping_add(cur_len);
     let mut finish = |mut delta: i32| {
         if !do_stem_adjust {
             delta = delta.clamp(-MAX_DELTA_ABS, MAX_DELTA_ABS);
         }
-        let adjustment = cur_pos1 + delta;
+        let adjustment = cur_pos1.wrapping_add(delta);
         if edge.opos < edge2.opos {
             axis.edges[edge_ix].pos = adjustment;
-            axis.edges[edge2_ix].pos = adjustment + cur_len;
+            axis.edges[edge2_ix].pos = adjustment.wrapping_add(cur_len);
         } else {
             axis.edges[edge2_ix].pos = adjustment;
-            axis.edges[edge_ix].pos = adjustment + cur_len;
+            axis.edges[edge_ix].pos = adjustment.wrapping_add(cur_len);
         }
         delta
     };
-    let mut d_off1 = cur_pos1 - pix_floor(cur_pos1);
-    let mut d_off2 = cur_pos2 - pix_floor(cur_pos2);
+    let mut d_off1 = cur_pos1.wrapping_sub(pix_floor(cur_pos1));
+    let mut d_off2 = cur_pos2.wrapping_sub(pix_floor(cur_pos2));
     let mut delta = 0;
     if d_off1 == 0 || d_off2 == 0 {
         return finish(delta);
